@@ -12,10 +12,13 @@ PROP = dict(
          'distinct by hash of the case x backend',
     floor=dict(quick=800, thorough=6000),
     parallel=2,
+    confirm_replays=6,
     assumptions=TRUST + ['"eventually" is decided with a 60 s wall-clock budget per wait; a timeout must reproduce in isolated replays to count',
                          'schedules inside the runtimes are sampled'],
     bins=[rc('C02_tasks_tbb', 'harness/C02_tasks.cpp', 'tbb-asan', hang_s=400, quick=dict(scale=3)),
           rc('C02_tasks_omp', 'harness/C02_tasks.cpp', 'omp-asan', hang_s=400),
           rc('C02_tasks_internal', 'harness/C02_tasks.cpp', 'internal-asan', hang_s=400, quick=dict(scale=3)),
+          rc('C02_wake_internal_o2', 'harness/C02_tasks.cpp', 'internal-o2', san='', opt='-O2 -g', flags='-DC02_BIN=\\"C02_wake_internal_o2\\"',
+             env={'PBT_ONLY': 'wakeup_rounds'}, hang_s=400, quick=dict(scale=2), thorough=dict(scale=20, seeds=4)),
           rc('C02_tasks_debug', 'harness/C02_tasks.cpp', 'debug-asan', hang_s=400, quick=dict(scale=2))],
 )
